@@ -47,6 +47,97 @@ def label_shape(v):
     return (int(tag.e), enc)
 
 
+P_AGG = "<generators::AggregatedGensIter<'a, G> as std::iter::Iterator>::next"
+P_AG = "generators::BulletproofGens::<G>::G"
+P_AH = "generators::BulletproofGens::<G>::H"
+
+
+def aggregated_views(ck, F):
+    """R12.5: the aggregated (n, m) iterator as a transition system on (party_idx p, gen_idx g).
+    Reference transitions (invariant g <= n, p <= m; start (0,0)):
+      A  g <  n, p <  m      : yield array[p][g],   state (p, g+1)
+      B  g >= n, p+1 <  m, n >= 1 : yield array[p+1][0], state (p+1, 1)
+      B0 g >= n, p+1 <  m, n == 0 : None (an empty view lists nothing)
+      C  g >= n, p+1 >= m    : None
+      D  g <  n, p >= m      : None
+    By induction over calls the yielded sequence is (0,0..n-1),(1,0..n-1),..,(m-1,0..n-1): the first n generators of the
+    first m parties in party-major order.  Every yielded generator index must be provably < n and party index < m."""
+    from ..alg import Bounds, Ref
+
+    fn = F.fn(P_AGG)
+    ck.fn(P_AGG)
+    where = FX.short(fn["sp"])
+    n, m, p, g, parties, cap = isym("vn"), isym("vm"), isym("vp"), isym("vg"), isym("parties"), isym("cap")
+
+    def run(case):
+        I = H.new_interp(F)
+        I.bounds = Bounds()
+        arr = Vec([Seg(parties, lambda i: Vec([Seg(cap, lambda j, i=i: Pt.atom(sfun("GEN")(i, j)))]))])
+        st = Struct("generators::AggregatedGensIter", {"array": arr, "n": IntV(n), "m": IntV(m), "party_idx": IntV(p), "gen_idx": IntV(g)})
+        b = I.bounds
+        b.add_le(m, parties)  # caller precondition: at most party_capacity parties
+        b.add_le(n, cap)  # caller precondition: at most gens_capacity generators per party
+        if case in ("A", "D"):
+            b.add_le(g + 1, n)
+        else:
+            b.add_le(n, g)
+        if case == "A":
+            b.add_le(p + 1, m)
+        elif case == "B":
+            b.add_le(p + 2, m)
+            b.add_le(1, n)
+        elif case == "B0":
+            b.add_le(p + 2, m)
+            b.add_le(n, 0)
+        elif case == "C":
+            b.add_le(m, p + 1)
+        elif case == "D":
+            b.add_le(m, p)
+        box = [st]
+        from ..interp import SAFETY_LOG
+
+        mark = len(SAFETY_LOG)
+        ret = I.call_fn(P_AGG, [Ref(lambda: box[0], lambda nv: box.__setitem__(0, nv), "self")])
+        idx_logs = [e for e in SAFETY_LOG[mark:] if e["kind"] == "index"]
+        return ret, box[0], idx_logs, I
+
+    want = {
+        "A": ("Some", (p, g), (p, g + 1)),
+        "B": ("Some", (p + 1, sp.Integer(0)), (p + 1, sp.Integer(1))),
+        "B0": ("None", None, None),
+        "C": ("None", None, None),
+        "D": ("None", None, None),
+    }
+    for case, (variant, yielded, nxt) in want.items():
+        try:
+            ret, st, idx_logs, I = run(case)
+        except Unanalysable as u:
+            ck.fail("R12.5", f"aggregated:{case}", f"unanalysable: {u.msg}", u.where or where, kind="unanalysable")
+            continue
+        ok = isinstance(ret, Enum) and ret.variant == variant
+        why = f"returned {ret!r}"
+        if ok and variant == "Some":
+            el = ret.payload[0]
+            ok = isinstance(el, Pt) and len(el.terms) == 1 and eq(el.terms[0][1](0), sfun("GEN")(yielded[0], yielded[1]))
+            ok = ok and eq(st.fields["party_idx"].e, nxt[0]) and eq(st.fields["gen_idx"].e, nxt[1])
+            why = f"yielded {el!r}, next state ({st.fields['party_idx']!r}, {st.fields['gen_idx']!r})"
+            # the yielded generator index must be inside the requested width n (not merely inside the table)
+            in_view = __import__("rules.alg", fromlist=["lt"]).lt(yielded[1], n, I.bounds)
+            ck.require(in_view, "R12.5", f"aggregated:{case}:index<n", f"case {case}: the iterator yields generator index {yielded[1]} of party {yielded[0]} without establishing {yielded[1]} < n: for n = 0 and m >= 2 it lists generators outside the requested view (and indexes out of bounds on an empty table)", where)
+            bad = [e_ for e_ in idx_logs if not e_["ok"]]
+            ck.require(not bad, "R12.5", f"aggregated:{case}:in-bounds", f"case {case}: table access not provably in bounds: {[e_['detail'] for e_ in bad]}", where)
+        ck.require(ok, "R12.5", f"aggregated:{case}", f"case {case} of the view iterator differs from the reference transition: {why}", where, detail=why[:200])
+    # constructors start at (0, 0) over the right table
+    for path, fld in ((P_AG, "G_vec"), (P_AH, "H_vec")):
+        F.fn(path)
+        ck.fn(path)
+        I = H.new_interp(F)
+        bp = H.mk_bp_gens()
+        r = I.call_fn(path, [bp, IntV(n), IntV(m)])
+        ok = isinstance(r, Struct) and eq(r.fields["n"].e, n) and eq(r.fields["m"].e, m) and eq(r.fields["party_idx"].e, 0) and eq(r.fields["gen_idx"].e, 0) and r.fields["array"] is bp.fields[fld]
+        ck.require(ok, "R12.5", f"aggregated:start:{fld}", f"{path.split('::')[-1]}(n, m) must start the view at (party 0, generator 0) over {fld}; got {r!r}", FX.short(F.fn(path)["sp"]))
+
+
 def body(ck, F, cfg):
     # ---- R12.1 chain seed
     for p in (P_NEW, P_FF, P_NEXT, P_INC, P_BNEW, P_DEF, P_SG, P_SH):
@@ -179,6 +270,7 @@ def body(ck, F, cfg):
         fam = "G" if fld == "G_vec" else "H"
         why = []
         ck.require(r7.vec is not None and vec_eq(r7.vec, H.pt_vec(fam, nn), why), "R12.4", f"share:{fam}", f"share.{fam}(n) must be the first n generators of the share's own party vector; {'; '.join(why)}", FX.short(F.fn(path)["sp"]))
+    aggregated_views(ck, F)
     ck.floor("chain uses", len(calls), 2)
     ck.floor("C12 obligations", len(ck.obligations), 14)
 
@@ -190,8 +282,8 @@ def run(tier):
         "from the effect objects. Iterator::next and fast_forward must consume the chain by the same single point draw per element. increase_capacity is interpreted on symbolic (old, new, parties): "
         "chain tags 'G'/'H' go to the G/H vectors, the label carries LE32(party index), the chain is skipped by the old capacity and new-old elements are taken, for every party, so that element (j,i) is "
         "the i-th draw of chain (tag, j) regardless of history. Pedersen default bases and the prefix views are checked likewise.",
-        rule_text="R12.1 chain seed and labels; R12.2 same draw in skip/yield, resize offsets, history independence; R12.3 Pedersen bases; R12.4 prefix views",
-        not_decided=["pairwise distinctness, prime-order membership and pinned digests of generator values (values of hash/PRG/arkworks rand: need execution)", "the aggregated (n, m) iterator's exact enumeration (counter automaton; needs an inductive proof -- a different technique)"],
+        rule_text="R12.1 chain seed and labels; R12.2 same draw in skip/yield, resize offsets, history independence; R12.3 Pedersen bases; R12.4 prefix views; R12.5 aggregated (n,m) view as a four-case transition system (induction over calls stated, cases checked)",
+        not_decided=["pairwise distinctness, prime-order membership and pinned digests of generator values (values of hash/PRG/arkworks rand: need execution)"],
         assumptions=["SHA3/ChaCha/arkworks G::rand are the pinned dependencies"],
     )
     return ck.finish()
